@@ -64,6 +64,9 @@ var ruleTable = []RuleDef{
 	{"R-OPEN-ERR", (*Model).ruleOPENERR, "once the open function has registered the bucket no return carries an error (its cleanup-on-error deletes the store)"},
 	{"R-FRESH-DECODE", (*Model).ruleFRESHDECODE, "a map that json.Unmarshal decodes into inside a loop is a fresh variable (or reset) in every iteration"},
 	{"R-WAIT-LOCK", (*Model).ruleWAITLOCK, "no lock needed by the goroutine that closes a channel is held while waiting for that channel"},
+	{"R-WRITE-PATH", (*Model).ruleWRITEPATH, "an exported mutating entry point reports success only on paths that went through the document writer"},
+	{"R-FILTER-RESULT", (*Model).ruleFILTERRESULT, "a parse-edit-reencode helper never returns its unmodified input on a path that ran the editing callback"},
+	{"R-XATTR-ROUNDTRIP", (*Model).ruleXATTRROUNDTRIP, "stored xattrs that are always re-encoded are decoded whenever they exist (no extra condition on the decode)"},
 	{"R-TIMER", (*Model).ruleTIMER, "a new expiry timer is created only when the manager holds none"},
 }
 
